@@ -639,6 +639,10 @@ func (f *frame) invoke(c *ssa.CallCommon, pos token.Pos) []Val {
 	f.oblige("safety", "nil-iface:"+f.keyOf(c.Value, pos), nil, not(eq(sx("i-tag", recv.t), "0")), pos)
 	f.atCallAssertionsIface(c.Method.Name(), c, args, pos)
 	key := ifaceKey(c.Value.Type(), c.Method)
+	if k := strings.Split(key, "."); len(k) >= 2 {
+		// qualified form Interface.Method (when a plain method name also names other callees)
+		f.atCallAssertionsIface(k[len(k)-2]+"."+k[len(k)-1], c, args, pos)
+	}
 	ct := eng.cs.Contracts["iface::"+key]
 	sig := c.Method.Type().(*types.Signature)
 	// devirtualise when the dynamic type is known (interface value built in this activation or an inlined caller)
